@@ -21,12 +21,16 @@ PLAN = {
     "C05": {"level": "model_checking", "campaigns": [camp("c05", C.camp_c05)]},
     "C06": {"level": "model_checking", "campaigns": [camp("c06", C.camp_c06)]},
     "C07": {"level": "model_checking", "campaigns": [camp("c07", C.camp_c07)]},
-    "C08": {"level": "model_checking", "campaigns": [camp("c08", C.camp_c08)]},
+    "C08": {"level": "model_checking",
+            "mc": [{"cfg": "MC_LibBV.cfg", "module": "MC_LibBV.tla"}],
+            "campaigns": [camp("c08", C.camp_c08), {"name": "c08tlc", "tlcgen": "bv", "tags": Q}]},
     "C09": {"level": "model_checking", "campaigns": [camp("c09", C.camp_c09, {"quick": ["opt", "opt-nopf"], "thorough": ["opt", "opt-nopf", "chk", "chk-nopf"]},
                                                          xbuild={"quick": ("opt", "opt-nopf"), "thorough": ("opt", "opt-nopf")})]},
     "C10": {"level": "model_checking", "campaigns": [camp("c10", C.camp_c10, QC)]},
     "C11": {"level": "model_checking", "campaigns": [camp("c11", C.camp_c11, {"quick": ["opt"], "thorough": ["opt", "chk"]})]},
-    "C12": {"level": "model_checking", "campaigns": [camp("c12", C.camp_c12)]},
+    "C12": {"level": "model_checking",
+            "mc": [{"cfg": "MC_LibIt.cfg", "module": "MC_LibIt.tla"}],
+            "campaigns": [{"name": "c12tlc", "tlcgen": "it", "tags": Q}, camp("c12", C.camp_c12)]},
     "C13": {"level": "model_checking", "campaigns": [camp("c13", C.camp_c13)]},
     "C19": {"level": "model_checking", "campaigns": [camp("c19", C.camp_c19)]},
     "C14": {"level": "model_checking", "campaigns": [camp("c14", C.camp_c14, {"quick": ["opt"], "thorough": ["opt"]})]},
